@@ -3,7 +3,10 @@
 package sml
 
 import (
+	"bytes"
 	"fmt"
+	"math"
+	"sync"
 
 	"github.com/wolimst/lib-secs2-hsms-go/pkg/ast"
 )
@@ -256,6 +259,7 @@ func specSizeOK(size int, lower int, upper int) bool {
 //@   ensures fresh(errors) && fresh(warnings)
 //@   rac_ensures len(errors) == 0 ==> racFixedPoint(messages)
 //@   rac_ensures racDiagnosticsOK(input, errors) && racDiagnosticsOK(input, warnings)
+//@   rac_ensures racPrintedFormsReparse()
 //@   loop 1
 //@     invariant fresh(p) && fresh(p.messages)
 //@   loop 2
@@ -412,4 +416,146 @@ func racDiagnosticsOK(input string, diags []string) bool {
 		}
 	}
 	return true
+}
+
+// racPrintedFormsReparse (C04, first sentence; bounded): every message of a fixed enumerated family, printed and parsed again,
+// gives exactly one message, no errors, no warnings, and the same header fields, variables, printed form and bytes.
+// The family (racMessagePool) is independent of the input of the call it is attached to; it is evaluated once per process.
+var (
+	racPoolOnce sync.Once
+	racPoolOK   bool
+	racPoolWhy  string
+)
+
+func racPrintedFormsReparse() bool {
+	racPoolOnce.Do(func() {
+		racPoolOK = true
+		for _, m := range racMessagePool() {
+			if why := racReparses(m); why != "" {
+				racPoolOK = false
+				racPoolWhy = why
+				fmt.Println("GOVC-NOTE racPrintedFormsReparse:", why)
+				return
+			}
+		}
+	})
+	return racPoolOK
+}
+
+func racReparses(m *ast.DataMessage) (why string) {
+	defer func() {
+		if r := recover(); r != nil {
+			why = fmt.Sprintf("panic %v while re-parsing %q", r, m.String())
+		}
+	}()
+	text := m.String()
+	again, errs, warns := Parse(text)
+	if len(errs) != 0 || len(warns) != 0 || len(again) != 1 {
+		return fmt.Sprintf("%q re-parses to %d messages, errors %v, warnings %v", text, len(again), errs, warns)
+	}
+	a := again[0]
+	if a.String() != text || a.Name() != m.Name() || a.StreamCode() != m.StreamCode() || a.FunctionCode() != m.FunctionCode() ||
+		a.WaitBit() != m.WaitBit() || a.Direction() != m.Direction() || fmt.Sprint(a.Variables()) != fmt.Sprint(m.Variables()) {
+		return fmt.Sprintf("%q re-parses to a different message %q (header %q / %q, variables %v / %v)", text, a.String(), m.Header(), a.Header(), m.Variables(), a.Variables())
+	}
+	if len(m.Variables()) == 0 {
+		sb := []byte{1, 2, 3, 4}
+		x, y := m.SetSessionIDAndSystemBytes(7, sb), a.SetSessionIDAndSystemBytes(7, sb)
+		if m.WaitBit() == "optional" {
+			w := m.FunctionCode()%2 == 1
+			x, y = x.SetWaitBit(w), y.SetWaitBit(w)
+		}
+		if !bytes.Equal(x.ToBytes(), y.ToBytes()) {
+			return fmt.Sprintf("%q re-parses to a message with different bytes", text)
+		}
+	}
+	return ""
+}
+
+func racItemPool() []ast.ItemNode {
+	var items []ast.ItemNode
+	add := func(f func() ast.ItemNode) {
+		defer func() { recover() }()
+		items = append(items, f())
+	}
+	add(func() ast.ItemNode { return ast.NewEmptyItemNode() })
+	// every ASCII character alone, doubled, and between printable neighbours
+	for c := 0; c < 128; c++ {
+		ch := string(rune(c))
+		add(func() ast.ItemNode { return ast.NewASCIINode(ch) })
+		add(func() ast.ItemNode { return ast.NewASCIINode(ch + ch) })
+		add(func() ast.ItemNode { return ast.NewASCIINode("a" + ch + "b" + ch) })
+	}
+	add(func() ast.ItemNode { return ast.NewASCIINode("") })
+	add(func() ast.ItemNode { return ast.NewASCIINode("say \"hi\" \\ 0x41 <A> // no /* comment */") })
+	add(func() ast.ItemNode { return ast.NewASCIINodeVariable("v", 0, -1) })
+	add(func() ast.ItemNode { return ast.NewASCIINodeVariable("v_1", 3, 3) })
+	add(func() ast.ItemNode { return ast.NewASCIINodeVariable("_v", 2, 5) })
+	add(func() ast.ItemNode { return ast.NewASCIINodeVariable("v", 0, 7) })
+	add(func() ast.ItemNode { return ast.NewASCIINodeVariable("v", 4, -1) })
+	add(func() ast.ItemNode { return ast.NewBinaryNode() })
+	add(func() ast.ItemNode { return ast.NewBinaryNode(0, 1, 127, 128, 255) })
+	add(func() ast.ItemNode { return ast.NewBinaryNode(7, "bv1", 9, "bv2") })
+	add(func() ast.ItemNode { return ast.NewBooleanNode() })
+	add(func() ast.ItemNode { return ast.NewBooleanNode(true, false, "flag", true) })
+	add(func() ast.ItemNode { return ast.NewIntNode(1) })
+	add(func() ast.ItemNode { return ast.NewIntNode(1, -128, 0, 127, "iv") })
+	add(func() ast.ItemNode { return ast.NewIntNode(2, -32768, 32767) })
+	add(func() ast.ItemNode { return ast.NewIntNode(4, math.MinInt32, math.MaxInt32) })
+	add(func() ast.ItemNode { return ast.NewIntNode(8, int64(math.MinInt64), int64(math.MaxInt64), "big") })
+	add(func() ast.ItemNode { return ast.NewUintNode(1, 0, 255, "uv") })
+	add(func() ast.ItemNode { return ast.NewUintNode(2, 65535) })
+	add(func() ast.ItemNode { return ast.NewUintNode(4, uint32(math.MaxUint32)) })
+	add(func() ast.ItemNode { return ast.NewUintNode(8, uint64(math.MaxUint64), 0) })
+	add(func() ast.ItemNode { return ast.NewFloatNode(4) })
+	add(func() ast.ItemNode {
+		return ast.NewFloatNode(4, float32(0), float32(1.5), float32(-0.1), float32(math.MaxFloat32), float32(math.SmallestNonzeroFloat32), float32(1e21), float32(1e-7), "fv")
+	})
+	add(func() ast.ItemNode {
+		return ast.NewFloatNode(8, 0.0, 0.1, -2.5, math.MaxFloat64, math.SmallestNonzeroFloat64, 1e21, 1e20, 1e-7, 123456789.125, "gv")
+	})
+	add(func() ast.ItemNode { return ast.NewListNode() })
+	add(func() ast.ItemNode { return ast.NewListNode("xv", "yv") })
+	add(func() ast.ItemNode {
+		return ast.NewListNode(ast.NewIntNode(1, 1), ast.NewListNode(ast.NewASCIINode("x\"y"), ast.NewBooleanNode(true)), ast.NewListNode(), ast.NewUintNode(2, 7))
+	})
+	add(func() ast.ItemNode { return ast.NewListNode(ast.NewUintNode(1, "av"), "nv", "...[0]", ast.NewASCIINode("end")) })
+	add(func() ast.ItemNode {
+		return ast.NewListNode(ast.NewListNode(ast.NewUintNode(1, "av"), "...[0]"), "...[1]", ast.NewListNode(ast.NewASCIINodeVariable("sv", 1, 2), "qv", "...[2]"))
+	})
+	add(func() ast.ItemNode {
+		return ast.NewListNode(ast.NewListNode(ast.NewListNode(ast.NewBinaryNode("bv"), "...[0]"), "...[1]"), "...[2]")
+	})
+	return items
+}
+
+func racMessagePool() []*ast.DataMessage {
+	var msgs []*ast.DataMessage
+	add := func(f func() *ast.DataMessage) {
+		defer func() { recover() }()
+		msgs = append(msgs, f())
+	}
+	items := racItemPool()
+	// every item under one header
+	for _, it := range items {
+		it := it
+		add(func() *ast.DataMessage { return ast.NewDataMessage("msg", 1, 1, 1, "H->E", it) })
+	}
+	// every header shape with a few items
+	few := []ast.ItemNode{items[0], items[len(items)-4], items[len(items)-3]}
+	for _, name := range []string{"", "nv", "Name_1.x-y", "\u540d\u524d", "a<b", "q\"r"} {
+		for _, st := range []int{0, 1, 64, 127} {
+			for _, fn := range []int{0, 1, 2, 128, 255} {
+				for w := 0; w <= 2; w++ {
+					for _, dir := range []string{"H->E", "H<-E", "H<->E"} {
+						for _, it := range few {
+							name, st, fn, w, dir, it := name, st, fn, w, dir, it
+							add(func() *ast.DataMessage { return ast.NewDataMessage(name, st, fn, w, dir, it) })
+						}
+					}
+				}
+			}
+		}
+	}
+	return msgs
 }
